@@ -128,9 +128,10 @@ DyingIn(sv) == {s \in DOMAIN sv : sv[s].dying}
 BeforeIn(sv, a, b) == sv[a].fails < sv[b].fails \/ (sv[a].fails = sv[b].fails /\ sv[a].idx < sv[b].idx)
 (* the turn of dying server s has come: it leaves together with the dying servers before it that had nothing in flight *)
 DestroySet(sv, qq, s) == {d \in DyingIn(sv) : d = s \/ (BeforeIn(sv, d, s) /\ InflightOnIn(qq, d) = {})}
-AfterDestroy(sv, qq, s) ==
+AfterDestroyX(sv, qq, s, extra) ==      \* extra: further queries taken to be assigned to s (see the trace specification)
   LET n2 == (Cardinality(DOMAIN sv) - Cardinality(DestroySet(sv, qq, s))) * cfg.tries IN
-  [id \in DOMAIN qq |-> IF id \in InflightOnIn(qq, s) THEN RequeuedN(qq[id], n2) ELSE qq[id]]
+  [id \in DOMAIN qq |-> IF id \in InflightOnIn(qq, s) \cup extra THEN RequeuedN(qq[id], n2) ELSE qq[id]]
+AfterDestroy(sv, qq, s) == AfterDestroyX(sv, qq, s, {})
 
 FailServerIn(sv, s) == [sv EXCEPT ![s].fails = @ + 1, ![s].nextRetry = now + cfg.retrydelay]
 FailServer(s) == FailServerIn(srv, s)
